@@ -37,15 +37,21 @@ static Verdict c18_check(const KV &c, Ctx &ctx) {
     Bytes rb = c.get("rbytes");
     unsigned long cnt = (unsigned long)c.getu("count");
     char b1[CRYPT_GENSALT_OUTPUT_SIZE], b2[CRYPT_GENSALT_OUTPUT_SIZE];
+    // "exactly what it produces for that prefix" holds for every argument combination, the refused ones included:
+    // nrbytes may be given negative or zero, and rbytes may be NULL (then only success/failure can be compared)
+    int nrb = c.has("nrbytes") ? (int)c.geti("nrbytes") : (int)rb.size();
+    bool rbnull = c.geti("rbytes_null") != 0;
+    rb.resize(256, '\x33');  // large enough for whatever a (wrongly accepted) length makes the library read
     errno = 0;
-    char *r1 = crypt_gensalt_rn(nullptr, cnt, rb.data(), (int)rb.size(), b1, sizeof b1);
+    char *r1 = crypt_gensalt_rn(nullptr, cnt, rbnull ? nullptr : rb.data(), nrb, b1, sizeof b1);
     int e1 = errno;
     errno = 0;
-    char *r2 = crypt_gensalt_rn(pm, cnt, rb.data(), (int)rb.size(), b2, sizeof b2);
+    char *r2 = crypt_gensalt_rn(pm, cnt, rbnull ? nullptr : rb.data(), nrb, b2, sizeof b2);
     int e2 = errno;
+    if (rbnull && r1 && r2) { r1 = b1; r2 = b1; }  // OS entropy: the strings differ by design
     ctx.st.executed += 2;
     if ((r1 == nullptr) != (r2 == nullptr) || (r1 && strcmp(r1, r2)) || (!r1 && e1 != e2))
-      return "C18 crypt_gensalt_rn(NULL, " + std::to_string(cnt) + ", rbytes[" + std::to_string(rb.size()) + "]) = " + (r1 ? "\"" + std::string(r1) + "\"" : "NULL/errno " + std::to_string(e1)) + " but with the preferred prefix \"" + pm + "\" = " + (r2 ? "\"" + std::string(r2) + "\"" : "NULL/errno " + std::to_string(e2));
+      return "C18 crypt_gensalt_rn(NULL, " + std::to_string(cnt) + ", " + (rbnull ? "rbytes=NULL" : "rbytes") + ", nrbytes=" + std::to_string(nrb) + ") = " + (r1 ? "\"" + std::string(r1) + "\"" : "NULL/errno " + std::to_string(e1)) + " but with the preferred prefix \"" + pm + "\" = " + (r2 ? "\"" + std::string(r2) + "\"" : "NULL/errno " + std::to_string(e2));
     if (ctx.st.nontriv(fnv(c.serialize())) && ctx.st.samples.size() < ctx.st.sample_cap) ctx.st.sample("gensalt(NULL, " + std::to_string(cnt) + ", n=" + std::to_string(rb.size()) + ") == gensalt(\"" + pm + "\", ...) : " + (r1 ? r1 : "both fail"));
     ctx.st.cls(r1 ? "c18-null-prefix/success" : "c18-null-prefix/failure");
     return "";
@@ -203,6 +209,8 @@ static int c18_run(Ctx &ctx) {
         c.seti("global", 1);
         c.setu("count", g::coin() ? 0 : (unsigned long long)g::pick(0, 14));
         c.set("rbytes", g::rbytes((size_t)g::pick(0, 80)));
+        if (g::coin(1, 4)) c.seti("nrbytes", g::oneof<long long>({-1, -2, -16, -2147483647LL - 1, 0, 1, 15, 16, 64, 65, 255, 256}));
+        c.seti("rbytes_null", g::coin(1, 8));
         return c;
     }
     c.set("suffix", g::coin() ? g::chars_from(g::PWSAFE, (size_t)g::pick(1, 200)) : Bytes());
